@@ -145,6 +145,18 @@ CHECKS['C14'] = {
     'design': 'DESIGN.md section 3 C14',
 }
 
+CHECKS['C04'] = {
+    'technique': 'machine-checked proof in Coq (requestor bookkeeping, all event orders) + runs of real Requestors against a scripted raw replier over loopback QUIC',
+    'text': ("PROVED for every order of calls, replies (any id or none, late, doubled, foreign) and timer expiries on one requestor and all its clones, for fewer than 2^32 calls: an "
+             "Ok result carries the reply whose req_id is the id given to exactly that call; ids given to different calls differ; every call finishes at most once; a reply never "
+             "changes a finished call; after a timeout no reply is ever handed to that call. TIED to the code by runs over loopback QUIC: 1-3 requestor streams (colliding req_ids "
+             "across streams) with 1-6 concurrent calls each on clones, against a raw replier answering quickly, out of order, twice, late (after the timeout), never, or with a "
+             "foreign req_id; then a second round of calls after every late reply has arrived. Each Ok must be the reply made for that very request; late/missing/foreign must end in "
+             "RequestTimeout within [T-20 ms, T+400 ms]."),
+    'note': "tokio's timer and the server's routing (C02) are assumed by the theorem and exercised by the run. Payload codec/compression of requests is covered by C14/C03 machinery.",
+    'design': 'DESIGN.md section 3 C04',
+}
+
 ALL = ['C%02d' % i for i in range(1, 18)]
 
 PENDING_REASON = "check under construction in this session (model and harness not yet committed); it will be claimed once its check is committed"
